@@ -2,7 +2,7 @@
    from the case's arguments, the canonical observation the Rust harness
    printed for the implementation. Everything is numbers: arguments are lists
    of integers, observations are lists of integers. Definitions only. *)
-Require Import BV.Model.Base BV.Model.SrcB BV.Model.Length BV.Model.Tag BV.Model.Twos BV.Model.Int BV.Model.BitStr BV.Model.Oid BV.Model.Content BV.Model.Prog.
+Require Import BV.Model.Base BV.Model.SrcB BV.Model.Length BV.Model.Tag BV.Model.Twos BV.Model.Int BV.Model.BitStr BV.Model.Oid BV.Model.Content BV.Model.Prog BV.Model.OctStr.
 Local Open Scope Z_scope.
 
 Definition zs_to_ns (l : list Z) : list N := map Z.to_N l.
@@ -154,6 +154,55 @@ Definition s_c20_display (args : list (list Z)) : list Z :=
 Definition s_prog (args : list (list Z)) : list Z :=
   run_program (argm 0 args) (arg 1 args) (argb 2 args).
 
+(* ---- C16 / C17 / C18 ---- *)
+Definition enc_segs (l : list (list N)) : list Z := Z.of_N (len l) :: flat_map enc_bytes l.
+Definition enc_ostr_views (o : ostr) : list Z :=
+  (match o with OPrim _ => [0] | OCons _ => [1] end) ++
+  enc_res enc_segs (os_segments o) ++ enc_res enc_bytes (os_octets o) ++
+  enc_res enc_n (os_len o) ++ enc_res enc_bool (os_is_empty o).
+Definition tag_of_args (cl n : N) : tag := match tag_new (cl * 64) n with Ok t => t | _ => T_OCTET_STRING end.
+
+Definition s_c16_decode (args : list (list Z)) : list Z :=
+  enc_res enc_ostr_views (octstr_take_from (argm 0 args) T_OCTET_STRING (argb 1 args)).
+Definition s_c16_encode (args : list (list Z)) : list Z :=
+  match octstr_take_from (argm 0 args) T_OCTET_STRING (argb 1 args) with
+  | Ok o => 0 :: enc_res enc_bytes (os_encode (argm 2 args) T_OCTET_STRING o)
+              ++ enc_res enc_n (os_encoded_len (argm 2 args) T_OCTET_STRING o)
+  | _ => [1]
+  end.
+Definition s_c17_cmp (args : list (list Z)) : list Z :=
+  match octstr_take_from Ber T_OCTET_STRING (argb 0 args), octstr_take_from Ber T_OCTET_STRING (argb 1 args) with
+  | Ok a, Ok b =>
+      0 :: enc_res enc_bool (os_eq a b) ++ enc_res enc_cmp (os_cmp a b)
+        ++ enc_res enc_bool (os_eq a b)
+  | _, _ => [1]
+  end.
+Definition s_c17_slice (args : list (list Z)) : list Z :=
+  match octstr_take_from Ber T_OCTET_STRING (argb 0 args) with
+  | Ok a => 0 :: enc_res enc_bool (os_eq_slice a (argb 1 args)) ++ enc_res enc_cmp (os_cmp_slice a (argb 1 args))
+  | _ => [1]
+  end.
+Definition charset_of (n : N) : charset :=
+  match n with 0%N => Utf8 | 1%N => Numeric | 2%N => Printable | _ => Ia5 end.
+Definition charset_tag (cs : charset) : tag :=
+  match cs with Utf8 => T_UTF8_STRING | Numeric => T_NUMERIC_STRING
+              | Printable => T_PRINTABLE_STRING | Ia5 => T_IA5_STRING end.
+Definition enc_chars (l : list N) : list Z := Z.of_N (len l) :: map Z.of_N l.
+Definition s_c18_decode (args : list (list Z)) : list Z :=
+  let cs := charset_of (argn 0 args) in
+  match octstr_take_from (argm 1 args) (charset_tag cs) (argb 2 args) with
+  | Ok o => match rs_new cs o with
+            | Ok o' => 0 :: enc_res enc_chars (rs_chars cs o') ++ enc_res enc_bytes (os_octets o')
+            | CErr => [1] | _ => [3] end
+  | CErr => [1] | _ => [3]
+  end.
+Definition s_c18_fromstr (args : list (list Z)) : list Z :=
+  let cs := charset_of (argn 0 args) in
+  match rs_from_str cs (argb 1 args) with
+  | Ok o => 0 :: enc_res enc_chars (rs_chars cs o)
+  | CErr => [1] | _ => [3]
+  end.
+
 Definition run_stream (sid : N) (args : list (list Z)) : list Z :=
   match sid with
   | 201%N | 301%N | 901%N | 1001%N | 1101%N => s_prog args
@@ -167,6 +216,12 @@ Definition run_stream (sid : N) (args : list (list Z)) : list Z :=
   | 1403%N => s_c14_null args
   | 1404%N => s_c14_enc args
   | 1406%N => s_c14_skipif args
+  | 1601%N => s_c16_decode args
+  | 1602%N => s_c16_encode args
+  | 1701%N => s_c17_cmp args
+  | 1702%N => s_c17_slice args
+  | 1801%N => s_c18_decode args
+  | 1802%N => s_c18_fromstr args
   | 1901%N => s_c19_decode args
   | 1902%N => s_c19_bit args
   | 1903%N => s_c19_enc args
